@@ -30,6 +30,8 @@ import (
 	"github.com/echovault/sugardb/internal"
 	"github.com/echovault/sugardb/internal/constants"
 	"github.com/echovault/sugardb/internal/eviction"
+	"github.com/echovault/sugardb/internal/modules/set"
+	"github.com/echovault/sugardb/internal/modules/sorted_set"
 	"github.com/echovault/sugardb/verifhook"
 )
 
@@ -433,6 +435,11 @@ func (server *SugarDB) createDatabase(database int) {
 }
 
 func (server *SugarDB) getState() map[int]map[string]interface{} {
+	// No data command runs while the state is copied. (The lock is taken before the flags below are
+	// looked at: a write command waits for the copy flag while it holds this lock.)
+	server.commandLock.Lock()
+	defer server.commandLock.Unlock()
+
 	// Wait unit there's no state mutation or copy in progress before starting a new copy process.
 	for {
 		if !server.stateCopyInProgress.Load() && !server.stateMutationInProgress.Load() {
@@ -440,15 +447,38 @@ func (server *SugarDB) getState() map[int]map[string]interface{} {
 			break
 		}
 	}
+	// The copy shares nothing with the store: it is encoded after this function has returned, while
+	// commands are executing again.
+	server.storeLock.RLock()
 	data := make(map[int]map[string]interface{})
 	for db, store := range server.store {
 		data[db] = make(map[string]interface{})
 		for k, v := range store {
-			data[db][k] = v
+			data[db][k] = internal.KeyData{Value: cloneValue(v.Value), ExpireAt: v.ExpireAt}
 		}
 	}
+	server.storeLock.RUnlock()
 	server.stateCopyInProgress.Store(false)
 	return data
+}
+
+// cloneValue returns a deep copy of a stored value.
+func cloneValue(value interface{}) interface{} {
+	switch v := value.(type) {
+	case []string:
+		return append([]string{}, v...)
+	case map[string]interface{}:
+		hash := make(map[string]interface{}, len(v))
+		for field, fieldValue := range v {
+			hash[field] = fieldValue
+		}
+		return hash
+	case *set.Set:
+		return set.NewSet(v.GetAll())
+	case *sorted_set.SortedSet:
+		return sorted_set.NewSortedSet(v.GetAll())
+	}
+	return value
 }
 
 // updateKeysInCache updates either the key access count or the most recent access time in the cache
